@@ -197,13 +197,17 @@ Section FromOpchains.
     end.
 
   (* ---- covers ---- *)
-  (* cover_ok: what correctness needs of an answer (validity only; minimality is C20's business) *)
+  (* cover_ok: what success needs of an answer: a valid vertex cover without repetitions, and — only when the
+     bipartite graph has a single V vertex, as at the last site — of size <= 1 (true of every minimum cover:
+     {v0} is a cover), because otherwise [assert len(vlist_next) == 1] fires.  Correctness of the meaning needs
+     nothing of the cover (Proofs/FromOpchainsThm.v). *)
   Fixpoint nodupn (l : list nat) : bool :=
     match l with [] => true | x :: t => negb (existsb (Nat.eqb x) t) && nodupn t end.
   Definition cover_okb (nu nv : nat) (es : list (nat * nat)) (cv : list nat * list nat) : bool :=
     nodupn (fst cv) && nodupn (snd cv) &&
     forallb (fun i => Nat.ltb i nu) (fst cv) && forallb (fun j => Nat.ltb j nv) (snd cv) &&
-    forallb (fun e => existsb (Nat.eqb (fst e)) (fst cv) || existsb (Nat.eqb (snd e)) (snd cv)) es.
+    forallb (fun e => existsb (Nat.eqb (fst e)) (fst cv) || existsb (Nat.eqb (snd e)) (snd cv)) es &&
+    (negb (Nat.eqb nv 1) || Nat.leb (length (fst cv) + length (snd cv)) 1).
   (* the answers to the calls actually issued during the sweep are valid covers *)
   Fixpoint calls_okb (cover : cover_t) (n : nat) (s : st) : bool :=
     match n with
